@@ -550,6 +550,10 @@ class Path(PathDeprecations):
             path = os.fspath(path)
             if isinstance(path, str) and "\0" in path:
                 raise PathError(f"Path contains a null byte: {path!r}")
+            try:
+                os.fsencode(path)
+            except UnicodeEncodeError as ex:
+                raise PathError(f"Path not encodable for the file system: {path!r}") from ex
             cwd = os.fspath(cwd) if cwd else None
             abs_path = os.path.expanduser(path)
             if self._file_scheme.match(abs_path):
